@@ -699,6 +699,7 @@ def observe(dc, aspects=None):
                     so['mask'] = 'EXC:' + type(e).__name__
                 if 'styles' in A:
                     so['style'] = style_of(s.style)
+                so['rois'] = state_rois(s.subset_state)
                 subs.append(so)
             o['subsets'] = subs
         obs['data'].append(o)
@@ -723,8 +724,6 @@ def observe(dc, aspects=None):
             for sl in subs:
                 ext.append([[lab(c) for c in sl.get_from_ids()], lab(sl.get_to_id())])
         obs['external_links'] = sorted(ext, key=lambda x: json.dumps(x))
-    if 'masks' in A:
-        obs['rois'] = [state_rois(g.subset_state) for g in dc.subset_groups]
     if 'groups' in A:
         obs['groups'] = [g.label for g in dc.subset_groups]
         obs['group_sizes'] = [len(g.subsets) for g in dc.subset_groups]
@@ -1216,6 +1215,11 @@ def catalogue(tables):
                 if len(shape) == 1:
                     sp['links'] = [{'kind': 'LinkSame', 'a': [0, 'x'], 'b': [1, 'x']}]
                 cases.append(('order:%s:%s:%dd' % (dcomp['kind'], reorder, len(shape)), sp))
+    # a derived component as the very first component of the dataset (allowed by reorder_components)
+    for dcomp in der:
+        ds = {'label': 'ord', 'shape': [6], 'comps': [{'name': 'x', 'kind': 'float', 'seed': 3}, {'name': 'y', 'kind': 'float', 'seed': 4}, dict(dcomp)], 'reorder': 'all_reversed'}
+        cases.append(('order:derived-first:%s' % dcomp['kind'], {'include_data': True, 'datasets': [ds], 'links': [], 'subsets': [
+            {'label': 's', 'state': {'cls': 'InequalitySubsetState', 'd': 0, 'left': dcomp['name'], 'right': 5, 'op': 'gt'}}]}))
     # functions by reference: plain module-level functions, names re-defined after use, closures shadowing a module-level name
     for mode in ('plain', 'rebound', 'closure'):
         for use in ('derived', 'link', 'twoway', 'pretransform'):
